@@ -272,9 +272,24 @@ pub fn run(ctx: &mut Ctx) {
         thread_local! { static T: Tables = Tables::build(); }
         T.with(|t| oracle(t, c, p))
     });
+    if ctx.tier == crate::Tier::Thorough && ctx.violations().is_empty() {
+        let t = Tables::build();
+        for bytes in crate::fuzzrun::campaign(ctx, "vm_diff", 8, 300000, 768) {
+            let c = crate::fuzzdec::decode_vm(&bytes, &t);
+            let mut p = Probe::default();
+            let opts = crate::vm_oracle::VmOpts { sweep: true, full_sweep_upto: 24, labels: false };
+            if let Err(f) = crate::vm_oracle::vm_oracle(&t, &c, &opts, &mut p) {
+                ctx.violation("fuzz_vm_diff", &f, serde_json::to_value(&c).unwrap_or(Value::Null));
+            }
+        }
+    }
 }
 
 pub fn replay(ctx: &mut Ctx, sub: &str, case: &Value) {
     let t = Tables::build();
+    if sub == "fuzz_vm_diff" {
+        ctx.replay_case::<VmCase, _>(sub, case, |c, p| crate::props::c01::oracle_program(&t, c, p, 24));
+        return;
+    }
     ctx.replay_case::<C03Case, _>(sub, case, |c, p| oracle(&t, c, p));
 }
